@@ -1043,7 +1043,7 @@ fn part4_lzw(cx: &Ctx) {
         Plain::Period { pat: b"abc".to_vec(), len: 2_000_000 },
         Plain::Period { pat: vec![0, 0, 1, 0, 1, 1, 0], len: 1_000_000 },
     ];
-    let windows: Vec<u16> = [510u16, 1022, 2046, 4092].iter().flat_map(|e| (*e..*e + 5)).collect();
+    let windows: Vec<u16> = [510u16, 1022, 2046, 4092].iter().flat_map(|e| *e..*e + 5).collect();
     let mut work: Vec<(usize, bool, usize)> = vec![]; // (generator, early, prefix length)
     let mut stats = vec![];
     for (gi, g) in gens.iter().enumerate() {
